@@ -37,7 +37,7 @@ func c14BigCounts(r *drv.Run) {
 				job{fmt.Sprintf("find all @/xa{%d,%d}y/", n, n), "xy x" + as + "y", fmt.Sprintf("x a{%d,%d} y", n, n), [][2]int{{3, 3 + n + 2}}})
 		}
 	}
-	r.Exec(len(jobs), drv.ExecOpts{Batch: 1}, func(i int) *drv.Item {
+	r.Exec(len(jobs), drv.ExecOpts{Batch: 1, Env: []string{"VW_RSS_LIMIT_MB=6000"}}, func(i int) *drv.Item {
 		jb := jobs[i]
 		c := wire.Case{Op: "run", Src: []byte(jb.src), Texts: [][]byte{[]byte(jb.text)}, StepBudget: 50_000_000}
 		return &drv.Item{Case: c, Check: func(res *wire.Result) {
